@@ -1294,10 +1294,34 @@ package res
 //@   ensures parallel: imp(ref(g) != 0 && len(g) == 0, len(s) == 0)
 //@   ensures literal: imp(len(g) == 1 && len(g[0].str) > 0, same(s, g[0].str))
 //@   loop 1 invariant -1 <= rangeindex && rangeindex < len(g) + 0 && forall(k, 0, len(g), imp(len(g[k].str) == 0, 0 <= g[k].idx && g[k].idx < len(tokens)))
+//@ ghostvar mhit int
+//@ ghostvar mnode ref
+//@ ghostvar mfl arrb
 //@ func matchNode(l *node, toks []string, i int, mi int, nm *nodeMatch) (ok bool)
 //@   requires l != nil && isnode[ref(l)] && WF() && pendm == 0 && nm != nil && 0 <= mi && mi <= i && i < len(toks)
 //@   requires rel: imp(!l.mounted, i - mi == nr[ref(l)])
-//@   modifies *nm, alloc
+//@   modifies *nm, alloc, ghost.mhit, ghost.mnode, ghost.mfl
+//@   # C06, most specific match: the candidates of one level are tried in the order literal child, placeholder child,
+//@   # full wildcard; the search stops at the first success (mhit counts successful descents) and the match reported is
+//@   # the node of that success (mnode); nothing is reported only when no candidate of this level succeeded
+//@   ensures lit.last: imp(old(i) + 1 == len(toks) && mapValId(l.nodes, keyid(toks[old(i)])) != nil && mapValId(l.nodes, keyid(toks[old(i)])).hs != nil, ok && nm.n == mapValId(l.nodes, keyid(toks[old(i)])))
+//@   ensures param.last: imp(old(i) + 1 == len(toks) && (mapValId(l.nodes, keyid(toks[old(i)])) == nil || mapValId(l.nodes, keyid(toks[old(i)])).hs == nil) && l.param != nil && l.param.hs != nil, ok && nm.n == l.param)
+//@   ensures wild.last: imp(old(i) + 1 == len(toks) && (mapValId(l.nodes, keyid(toks[old(i)])) == nil || mapValId(l.nodes, keyid(toks[old(i)])).hs == nil) && (l.param == nil || l.param.hs == nil), ok == (l.wild != nil) && imp(ok, nm.n == l.wild))
+//@   ensures wild.deep: imp(old(i) + 1 < len(toks) && mhit == old(mhit), ok == (l.wild != nil) && imp(ok, nm.n == l.wild))
+//@   ensures hit: mhit >= old(mhit) && imp(mhit > old(mhit), ok) && imp(ok, ref(nm.n) == mnode)
+//@   ghost call matchNode#1 before :: assert descend: arg_l == n && arg_i == i && arg_mi == mi && ref(arg_toks) == ref(toks) && len(arg_toks) == len(toks) && arg_nm == nm
+//@   ghost call matchNode#1 after :: set mhit = mhit + ite(arg_ok, 1, 0)
+//@   # mfl: the nodes whose subtree was searched without success during this lookup (only grows)
+//@   ghost call matchNode#1 after :: set mfl = ite(arg_ok, mfl, store(mfl, ref(n), true))
+//@   ensures mono: forallge(q, 0, imp(old(mfl[q]), mfl[q]))
+//@   ghost store mountIdx#2 before :: assert children.first: imp(i < len(toks), (mapValId(l.nodes, keyid(toks[i-1])) == nil || mfl[ref(mapValId(l.nodes, keyid(toks[i-1])))]) && (l.param == nil || mfl[ref(l.param)]))
+//@   ensures miss.tried: imp(!ok && old(i) + 1 < len(toks), (mapValId(l.nodes, keyid(toks[old(i)])) == nil || mfl[ref(mapValId(l.nodes, keyid(toks[old(i)])))]) && (l.param == nil || mfl[ref(l.param)]))
+//@   loop 1 invariant forallge(q, 0, imp(old(mfl[q]), mfl[q])) && imp(c <= 1 && i < len(toks) && mapValId(l.nodes, keyid(toks[i-1])) != nil, mfl[ref(mapValId(l.nodes, keyid(toks[i-1])))]) && imp(c <= 0 && i < len(toks) && l.param != nil, mfl[ref(l.param)])
+//@   ghost store mountIdx#1 after :: set mnode = ref(n)
+//@   ghost store mountIdx#2 before :: assert no.hit: mhit == old(mhit)
+//@   ghost store mountIdx#2 after :: set mnode = ref(n)
+//@   loop 1 invariant 0 <= c && c <= 2 && imp(c == 2, n == mapValId(l.nodes, keyid(toks[i-1]))) && imp(c == 1, n == l.param) && mhit == old(mhit)
+//@   loop 1 invariant imp(c <= 1 && i == len(toks), mapValId(l.nodes, keyid(toks[i-1])) == nil || mapValId(l.nodes, keyid(toks[i-1])).hs == nil) && imp(c <= 0 && i == len(toks), l.param == nil || l.param.hs == nil)
 //@   ensures found: imp(ok, nm.n != nil && isnode[ref(nm.n)] && 0 <= nm.mountIdx && nm.mountIdx + nr[ref(nm.n)] <= len(toks))
 //@   ensures miss: imp(!ok, nm.n == old(nm.n))
 //@   ghost entry :: use open(l)
@@ -1313,6 +1337,10 @@ package res
 //@   ensures prefix: imp(mh != nil && len(m.path) > 0, (len(rname) == len(m.path) && rname == m.path) || (len(rname) > len(m.path) && rname[0:len(m.path)] == m.path && rname[len(m.path)] == '.'))
 //@   ghost entry :: use open(m.root)
 //@   ghost call matchNode#1 after :: use open(nm.n)
+//@   # the search bookkeeping of matchNode (mhit, mnode) is local to one lookup: it is put back so that no caller has to name it
+//@   ghost exit :: set mhit = old(mhit)
+//@   ghost exit :: set mnode = old(mnode)
+//@   ghost exit :: set mfl = old(mfl)
 //@   # the default group is the full resource name (including the service name), as With/WithGroup callers spell it (C01)
 //@   ghost call group.toString#1 before :: assert full.name: same(arg_rname, rname)
 //@   loop 1 invariant 0 <= start && start <= i && i <= len(subrname) && len(tokens) >= 0 && muxOK(m) && len(subrname) > 0 && ref(tokens) >= old(nextRef())
